@@ -33,6 +33,9 @@ type c10Scenario struct {
 var c10Paths = []string{"/data/a.txt", "/data/b.txt", "/data/sub", "/data/missing.txt", "/data/sub/c.txt", "/nodir/x.txt", "/data"}
 var c10Texts = []string{"甲乙丙", "hello", "", "第一行\n第二行", "ZZZZZZZZZZZZZZZZZZZZ"}
 
+// contents a file may already hold when the program starts: not everything on a disk is UTF-8 text
+var c10Initial = []string{"甲乙丙", "hello", "", "第一行\n第二行", "\xd6\xd0\xce\xc4", "\xff\xfe\x00\x01bin", "截断\xe4\xb8", "\xef\xbb\xbfBOM文"}
+
 type c10Op struct {
 	kind, path, text string
 	direct           int // 0: bind to a name then display it; 1: display the call directly; 2: 输出 the call
@@ -88,10 +91,10 @@ func c10Builtins(t *zsim.Tape, w *zsim.World, d *zsim.Disk, sc *c10Scenario, out
 	model := map[string]string{}
 	written := map[string][]string{} // every text ever associated with a path
 	if t.Draw(4) != 0 {
-		sc.Files["/data/a.txt"] = c10Texts[t.Draw(len(c10Texts))]
+		sc.Files["/data/a.txt"] = c10Initial[t.Draw(len(c10Initial))]
 	}
 	if t.Draw(2) == 1 {
-		sc.Files["/data/sub/c.txt"] = c10Texts[t.Draw(len(c10Texts))]
+		sc.Files["/data/sub/c.txt"] = c10Initial[t.Draw(len(c10Initial))]
 	}
 	for p, s := range sc.Files {
 		d.Put(p, []byte(s))
